@@ -37,7 +37,7 @@ Theorem C03_alt_compact_field_header : forall last id long ct ty r rcx,
     Ok ((ty, Some id),
         mkS r (mkR id (r_stack rcx)
                    (match ct with CBooleanTrue => Some true | CBooleanFalse => Some false | _ => r_pbool rcx end)
-                   (r_pfield rcx))).
+                   false)).
 Proof. exact alt_field_header. Qed.
 Print Assumptions C03_alt_compact_field_header.
 
